@@ -535,6 +535,13 @@ fn handle(line: &str) -> String {
             out
         }
         "get" => tree::run_get(&f[1.min(f.len())..]),
+        "fdisp" => {
+            // Display text of the float with the given bits (the emitter's external dependency)
+            match u64::from_str_radix(arg(1), 16) {
+                Ok(b) => hex(&format!("{}", f64::from_bits(b))),
+                Err(_) => "bad".into(),
+            }
+        }
         "f64" => {
             // helper: parse a decimal text with Rust's f64::from_str and print canonical bits
             match unhex(arg(1)).parse::<f64>() {
